@@ -47,7 +47,7 @@ func init() {
 			Expect: []string{"leniency.other-codes"}, Note: "any code accepted as soon as alternatives are listed"},
 		Mutant{ID: "C03-status-one-sided", Prop: "C03", File: f, Old: "\tif expected.HttpStatusCode != nil &&\n\t\tactual.HttpStatusCode != nil &&", New: "\tif expected.HttpStatusCode != nil &&",
 			Expect: []string{"leniency.http-status"}, Note: "absent actual status no longer lenient (compares against 0)"},
-		Mutant{ID: "C03-header-case", Prop: "C03", File: f, Old: "\t\tactualHeaders[strings.ToLower(hdr.Name)] = hdr.Value", New: "\t\tactualHeaders[hdr.Name] = hdr.Value",
+		Mutant{ID: "C03-header-case", Prop: "C03", File: f, Old: "\t\tactualHeaders[strings.ToLower(hdr.Name)] = append(actualHeaders[strings.ToLower(hdr.Name)], hdr.Value...)", New: "\t\tactualHeaders[hdr.Name] = append(actualHeaders[hdr.Name], hdr.Value...)",
 			Expect: []string{"leniency.header-case"}, Note: "actual header names no longer case-folded"},
 		Mutant{ID: "C03-payload-all-verify", Prop: "C03", File: f, Old: "checkRequestInfo(expectedPayload.GetRequestInfo(), actualPayload.GetRequestInfo(), i == 0)", New: "checkRequestInfo(expectedPayload.GetRequestInfo(), actualPayload.GetRequestInfo(), i >= 0)",
 			Expect: []string{"first-only.checkPayloads"}, Note: "headers demanded on every payload"},
